@@ -25,6 +25,11 @@ def intervalOf (dur : Int) : Interval :=
   let d := wrap64 (1000000 * dur)
   if d ≤ 0 then .subMs else if d < 60000000000 then .small else .huge
 
+/-- `revisePublishingInterval` on whole milliseconds: below the minimum (1 ms) → 1, above the
+    maximum (24 h) → 24 h -/
+def reviseMs (ms : Int) : Int :=
+  if ms < 1 then 1 else if ms > 86400000 then 86400000 else ms
+
 /-! ### suitableRefType -/
 
 def hasSubtypeId : Nat := 45
@@ -151,6 +156,12 @@ def safe (st : St) (t : Tok) (r : Req) : Bool := preempted st t r || safeBody st
 
 /-- every subscription has an owning session -/
 def ownersSet (st : St) : Bool := st.subs.all fun s => s.owner.isSome
+
+/-- every monitored item belongs to a subscription that is in the table -/
+def itemsHaveSubs (st : St) : Bool := st.items.all fun it => (findSub st it.sub).isSome
+
+/-- well-formed tables: what the services maintain (C29_wf_invariant), starting from the empty server -/
+def wf (st : St) : Bool := ownersSet st && itemsHaveSubs st
 
 /-- finding signature of a crashing request (decidable on the case) -/
 def sig29 (st : St) (t : Tok) : Req → String
